@@ -177,15 +177,18 @@ theorem selection_contains_between (maxDepth : Nat) (cells : List VCell) (from_ 
 /-- **The selection brackets the requested mass**: for every map of dyadic values, every
     `from ≤ to ≤ total`, every order / strictness / splitting / descent option, whenever the two
     thresholds are not strictly inside the same map cell, the value `M` enclosed by the selection
-    differs from `to − from` by at most one boundary piece per threshold — never above the target in
-    strict mode, never below it in non-strict mode. -/
+    differs from `to − from` by LESS than one boundary piece per threshold (third conjunct: strict inequality; when no
+    boundary cell is descended into, `uLow + uHigh = 0` and the first two conjuncts give equality) — never above the
+    target in strict mode, never below it in non-strict mode.  (`uLow` / `uHigh` are the finest piece of the cell a
+    threshold falls in, or that cell when splitting is off; a threshold lying exactly on a sub-cell boundary of a cell
+    that is descended into cuts nothing: the harness judges that corner with the exact bound.) -/
 theorem selection_mass_bracket (maxDepth : Nat) (cells : List VCell) (from_ to : Nat) (asc strict noSplit rev : Bool)
     (cs : List Cell) (M uLow uHigh : Nat)
     (h : selectWithMass maxDepth cells from_ to asc strict noSplit rev = some (cs, M, uLow, uHigh))
     (hdy : ∀ c ∈ cells, 4 ^ (maxDepthOf maxDepth cells - c.depth) ∣ c.val)
     (hft : from_ ≤ to) (htot : to ≤ sumVal cells) (hsame : NotSameCell cells from_ to asc) :
-    (strict = true → M ≤ to - from_ ∧ to - from_ ≤ M + uLow + uHigh) ∧
-    (strict = false → to - from_ ≤ M ∧ M ≤ to - from_ + uLow + uHigh) :=
+    (strict = true → M ≤ to - from_ ∧ to - from_ ≤ M + uLow + uHigh ∧ (to - from_ < M + uLow + uHigh ∨ uLow + uHigh = 0)) ∧
+    (strict = false → to - from_ ≤ M ∧ M ≤ to - from_ + uLow + uHigh ∧ (M < to - from_ + uLow + uHigh ∨ uLow + uHigh = 0)) :=
   mass_bracket maxDepth cells from_ to asc strict noSplit rev cs M uLow uHigh h hdy hft htot hsame
 
 /-- The hypothesis `NotSameCell` is necessary (this is the open finding): one cell of value 64 at
